@@ -143,15 +143,21 @@ func (c *StringScanner) PeekColumn() int {
 // Unread puts the specified character to the top of the stream.
 func (c *StringScanner) Unread() {
 	// Skip if we are at the beginning
-	if c.position < -1 {
+	if c.position < 0 {
 		return
 	}
 
 	// Update the current position
+	unreadChar := c.charAt(c.position)
 	c.position--
 
-	// Update line and columns (optimization)
-	if c.column > 0 {
+	// Leaving the end-of-input slot does not change line and column
+	if c.position+1 >= len(c.content) {
+		return
+	}
+
+	// Update line and columns (optimization for characters that only moved the column)
+	if c.isColumn(unreadChar) && c.column > 0 {
 		c.column--
 		return
 	}
